@@ -233,11 +233,27 @@ def extra_stages(tier, seed, scratch, total, notes):
         from concurrent.futures import ProcessPoolExecutor
         rng = rng_for(seed, 'C02', 'miri')
         jobs = []
+        # programs for the interpreter under Miri: parsed natively, executed as public ASTs (astexec)
+        native = runner.Driver(runner.build_driver("mon"), os.path.join(scratch, "miri-prep"))
+        prog_cases = []
+        for _ in range(400):
+            g = UntypedGen(rng)
+            e = g.gen(rng.choice([1, 2, 3, 4]))
+            try:
+                prog_cases.append({"id": len(prog_cases), "op": "parse", "src": render_min(e)})
+            except ValueError:
+                pass
+        parsed = native.run(prog_cases, "parse")
+        asts = [(c["src"], p_["ast"]) for c, p_ in zip(prog_cases, parsed) if isinstance(p_, dict) and "ast" in p_]
         for m in range(8):
             cases = []
             for _ in range(160):
                 a, b = rng.choice(POOL), rng.choice(POOL)
                 cases.append({"id": len(cases), "op": "valueop", "a": to_json(a), "b": to_json(b)})
+            for src, ast in asts[m::8][:40]:
+                names = rng.sample(IDENTS, rng.randint(2, 6))
+                cases.append({"id": len(cases), "op": "astexec", "ast": ast, "src": src,
+                              "vars": [[n, to_json(rng.choice(POOL))] for n in names]})
             jobs.append((cases, os.path.join(scratch, "miri%d" % m), 1 + m, runner.HARNESS, runner.TARGET + "-miri"))
         import time as _t
         t0 = _t.time()
@@ -247,7 +263,7 @@ def extra_stages(tier, seed, scratch, total, notes):
         mt = runner.UnitResult()
         for r in results:
             mt.merge(r)
-        notes.append({"stage": "miri", "processes": len(jobs), "value_pairs": sum(len(j[0]) for j in jobs), "operator_calls": mt.evaluations * 12,
+        notes.append({"stage": "miri", "processes": len(jobs), "value_pairs": 8 * 160, "programs_as_ast": mt.observed.get("astexec_programs", 0),
                       "wall_s": round(_t.time() - t0, 1), "reports": len(mt.violations), "inconclusive": mt.inconclusive[:3],
                       "statement": "no undefined behaviour reported by Miri on these direct Value operator calls" if not mt.violations else "Miri reported (see violations)"})
         mt.observed = {"miri:" + k: v for k, v in mt.observed.items() if not isinstance(v, set)}
@@ -270,6 +286,11 @@ def _miri_valueops(args):
         return res
     for c, r in zip(cases, out):
         res.evaluations += 1
+        if c["op"] == "astexec":
+            res.nt("miri|" + c["src"] + str(c["vars"]))
+            res.count("astexec_programs")
+            check_total(res, c, r, 'program executed as a public AST (Miri)')
+            continue
         res.nt("miri|" + str(c["a"]) + "|" + str(c["b"]))
         if not isinstance(r, dict) or 'add' not in r:
             o = outcome(r)
